@@ -40,12 +40,13 @@ ASSUMPTIONS = ['dimensions: plasTeX stores floats, the oracle is the exact ratio
                'float arithmetic modelled over z3 reals with each float constant taken at its exact binary value',
                'unit letters are ASCII', 'dimen register values lie in TeX\'s range |d| <= 2^30 sp', 'hex digits are 0-9A-F as in TeX (plasTeX additionally accepts a-f)',
                'the optional blank after a character constant (`c) is not required to be consumed (plasTeX leaves it)',
+               'an integer constant followed *directly* (no blank) by a register is multiplied by it - not TeX, but pinned by the repository\'s own tests (Numbers.Parameters); followers of that shape are not generated',
                'brackets of bracketed arguments nest (the property says nested brackets are matched; LaTeX itself stops at the first closing bracket)']
 OUTSIDE = ['signatures with more than 3 arguments', 'mu units in literals', 'arguments of type url/label/ref', 'literals followed by a newline']
 BUDGET_S = {'quick': 900, 'thorough': 3300}
 
-FOLLOW = ['x', ' x', '', ' ', '\\relax x', '{x}', '.x', ' \\probe x']
-FOLLOW_CS = ['1', ' x', '', ' ', '\\relax x', '{x}', '.x', ' \\probe x']        # after a control word
+FOLLOW = ['x', ' x', '', ' ', '\\relax x', '{x}', '.x', ' \\probe x', ' \\tolerance x']
+FOLLOW_CS = ['1', ' x', '', ' ', '\\relax x', '{x}', '.x', ' \\probe x', ' \\tolerance x']        # after a control word
 
 
 class probe(plasTeX.Command):
@@ -979,7 +980,7 @@ def jobs(tier, seed):
                               label='dimen %s %s %r' % (form, tk, f)))
     if q:
         # the side-effect follower for the scanners whose quick follower lists are cut short
-        pf = FOLLOW[-1]
+        pf = FOLLOW[-2]
         for form in ('D.D', '.D', 'D.'):
             J.append(dict(harness='h_dimen', params=dict(form=form, true_kw='none', follow=pf, nsigns=1), label='dimen %s none %r' % (form, pf), no_twin=True))
             J.append(dict(harness='h_decimal', params=dict(form=form, nsigns=1, follow=pf), label='decimal %s s1 %r' % (form, pf), no_twin=True))
